@@ -209,7 +209,7 @@ func linearComplexity(a []bool, M int) int {
 
 	B_ = make([]int, M)
 	C = make([]int, M)
-	P = make([]int, M)
+	P = make([]int, M+1) // 移位多项式的次数可达 M（前 M-1 位全 0、最后一位为 1 的块）
 	T = make([]int, M)
 
 	for i := 0; i < M; i++ {
